@@ -265,6 +265,8 @@ Plan gen_threads(u64 seed, u64 idx, const RunCtx & ctx)
   bool twins = r.chance(0.4);
   GenCfg twin_cfg; i64 twin_q = 0;
   if (twins) twin_cfg = pick_thread_cfg(r, twin_q);
+  // pristine-process runs: gA initialisations (table loaders: the only multi-read, allocation-heavy first-use path) more often
+  bool all_ga = ctx.fresh && r.chance(0.25);
   p.hdr["twins"] = twins ? "1" : "0";
   for (int t = 0; t < nt; t++) {
     int rounds = r.chance(0.8) ? 1 : 2;
@@ -272,6 +274,7 @@ Plan gen_threads(u64 seed, u64 idx, const RunCtx & ctx)
       i64 q = 0;
       GenCfg c = (twins && k == 0) ? twin_cfg : pick_thread_cfg(r, q);
       if (twins && k == 0) q = twin_q;
+      if (all_ga) { c = GenCfg(); c.cat = 1; c.nuc = GA_NUC[r.below(4)]; c.level = 0; c.mode = (int)r.range(21, 22); q = 0; }
       quads[(size_t)t] += q;
       if (c.mode >= 21) any_ga = true;
       Op o; o.k = "t_cfg"; o.a = {t, c.cat, c.level, c.mode, c.emin_keV, c.emax_keV, c.mdl}; o.s = {c.nuc};
@@ -332,6 +335,16 @@ Plan gen_threads(u64 seed, u64 idx, const RunCtx & ctx)
     // a restores its saved handler, then b continues into its quadrature
     Op o3; o3.k = "sw"; o3.a = {r.chance(0.7) ? SP_GSL_SET_POST : SP_QNG_POST, wa + (r.chance(0.7) ? 0 : 1), a, b}; p.ops.push_back(o3);
     if (r.chance(0.4)) { Op o4; o4.k = "sw"; o4.a = {0, r.range(1, 200), b, a}; p.ops.push_back(o4); }
+  }
+  // pristine-process runs: allocations are schedule points too - preempt in the middle of straight-line code
+  if (ctx.fresh && r.chance(0.7)) {
+    int k = (int)r.range(1, 6);
+    for (int i = 0; i < k; i++) {
+      int a = (int)r.below((u64)nt);
+      i64 nth = 1 + (i64)std::exp(r.unit() * std::log(6000.0)); // log-uniform over the first few thousand allocations
+      Op o; o.k = "sw"; o.a = {SP_ALLOC, nth, a, other(a)}; p.ops.push_back(o);
+      if (r.chance(0.6)) { Op o2; o2.k = "sw"; o2.a = {SP_ALLOC, 1 + (i64)r.below(400), other(a), a}; p.ops.push_back(o2); }
+    }
   }
   // first-use window: preempt a task inside one of its first reads (lazily loaded catalogue lists, gA tables)
   if (ctx.fresh && r.chance(0.6)) {
